@@ -24,6 +24,15 @@
                    the main-loop send fails; both continuations are allowed at every error.
    The consumer may drop its receiver (dropAt = number of messages it takes before; -1 = never).
 
+   The lifecycle ("hold") stage also PUBLISHES its table (evmap refresh) under a refresh index, the way
+   parse_lifecycles_buffered_from_stream does: on every confirmation (burst release) the confirmed entry `a` (= number of
+   messages consumed so far), at end of input the still buffered entry `b`, and after the final flush the final state of
+   `a`; consumers follow the table incrementally by the index (remote.rs process_file_context: take what carries an index
+   larger than the largest one seen).  pub = [val, idx, next, ok]; an observer process folds with exactly that rule.
+   Invariants PublishIdxMonotone (every publish that changes the visible table carries an index strictly larger than
+   any index published before) and FoldUpToDate (an observer that has seen the current index holds the current table).
+   SkipIdxStep = TRUE is the deviation "index not advanced after the end-of-stream publish" (model self-test only).
+
    Safety (TLC, every capacity vector and every interleaving): what the consumer received is a prefix of RefOut,
    the output of the same transducers composed functionally (= the run with unbounded channels, Kahn semantics), and
    equal to it when the consumer never dropped; no channel ever holds more than its capacity.
@@ -36,7 +45,9 @@ CONSTANTS NMsgs,        \* the producer sends 1..NMsgs
           CapAlphabet,  \* capacities a channel may have
           DropChoices,  \* values of dropAt (-1 = the consumer never drops)
           H,            \* the heap stage holds at most H messages
-          PStalls, CStalls   \* pacing hints for the real run (no effect here: TLC explores every schedule anyway)
+          PStalls, CStalls,  \* pacing hints for the real run (no effect here: TLC explores every schedule anyway)
+          Observe,      \* TRUE: a table observer polls at arbitrary points (more states)
+          SkipIdxStep   \* FALSE = as coded
 
 NS == Len(Kinds)
 C == NS + 1
@@ -50,9 +61,12 @@ VARIABLES caps, dropAt, pstall, cstall,      \* scenario parameters, fixed in In
           fin,       \* [0..NS -> input exhausted, the current batch is the last]
           q,         \* [Chans -> FIFO content]
           sAlive, rAlive,   \* [Chans -> sender / receiver of the channel still exists]
-          received, dropped
+          received, dropped,
+          seen,      \* messages consumed by the lifecycle stage
+          pub,       \* published table: [val |-> [a, b], idx |-> index of the last publish, next |-> next index, ok]
+          obs        \* the incremental observer: [last |-> largest index seen, val |-> folded table]
 params == <<caps, dropAt, pstall, cstall>>
-vars == <<caps, dropAt, pstall, cstall, pc, st, outq, fin, q, sAlive, rAlive, received, dropped>>
+vars == <<caps, dropAt, pstall, cstall, pc, st, outq, fin, q, sAlive, rAlive, received, dropped, seen, pub, obs>>
 
 -----------------------------------------------------------------------------
 \* the stage transducers
@@ -90,9 +104,20 @@ Init == /\ caps \in [Chans -> CapAlphabet] /\ dropAt \in DropChoices /\ pstall \
         /\ q = [i \in Chans |-> <<>>]
         /\ sAlive = [i \in Chans |-> TRUE] /\ rAlive = [i \in Chans |-> TRUE]
         /\ received = <<>> /\ dropped = FALSE
+        /\ seen = 0 /\ pub = [val |-> [a |-> 0, b |-> FALSE], idx |-> 0, next |-> 1, ok |-> TRUE]
+        /\ obs = [last |-> 0, val |-> [a |-> 0, b |-> FALSE]]
 
 \* room in channel i; a rendezvous channel takes a value only while its receiver waits in recv
 HasSpace(i) == IF caps[i] = 0 THEN q[i] = <<>> /\ pc[i + 1] = "recv" ELSE Len(q[i]) < caps[i]
+
+\* publishing (lifecycle stage only)
+IsLc(p) == p >= 1 /\ p <= NS /\ Kinds[p] = "hold"
+Pub(s, v, step) == [val |-> v, idx |-> s.next, next |-> IF step THEN s.next + 1 ELSE s.next,
+                    ok |-> s.ok /\ (v # s.val => s.next > s.idx)]
+EndPub(s) == Pub(s, [s.val EXCEPT !.b = TRUE], ~SkipIdxStep)          \* end of input: the still buffered lifecycles (rule #1)
+FinalPub(s) == Pub(s, [a |-> seen, b |-> TRUE], TRUE)                  \* forced refresh after the final flush
+\* the table when stage p returns (p = lifecycle stage: the code after its main loop publishes twice)
+PubOnReturn(p) == IF ~IsLc(p) THEN pub ELSE IF fin[p] THEN FinalPub(pub) ELSE FinalPub(EndPub(pub))
 
 \* process p ends: its sender and its receiver disappear
 Terminate(p) == /\ pc' = [pc EXCEPT ![p] = "done"]
@@ -105,52 +130,63 @@ Transfer(p) == /\ q' = [q EXCEPT ![p] = Append(@, Head(outq[p]))]
                /\ IF Tail(outq[p]) # <<>> THEN pc' = [pc EXCEPT ![p] = "send"] /\ UNCHANGED <<sAlive, rAlive>>
                   ELSE IF fin[p] THEN Terminate(p)
                   ELSE pc' = [pc EXCEPT ![p] = "recv"] /\ UNCHANGED <<sAlive, rAlive>>
-               /\ UNCHANGED <<params, st, fin, received, dropped>>
+               /\ pub' = (IF Tail(outq[p]) = <<>> /\ fin[p] THEN PubOnReturn(p) ELSE pub)
+               /\ UNCHANGED <<params, st, fin, received, dropped, seen, obs>>
 
 TrySendOk(p) == pc[p] = "send" /\ rAlive[p] /\ HasSpace(p) /\ Transfer(p)
 TrySendFull(p) == /\ pc[p] = "send" /\ rAlive[p] /\ (~HasSpace(p) \/ caps[p] = 0)   \* (rendezvous: the receiver may not be parked yet)
                   /\ pc' = [pc EXCEPT ![p] = "sleep"]
-                  /\ UNCHANGED <<params, st, outq, fin, q, sAlive, rAlive, received, dropped>>
+                  /\ UNCHANGED <<params, st, outq, fin, q, sAlive, rAlive, received, dropped, seen, pub, obs>>
 Wake(p) == /\ pc[p] = "sleep" /\ pc' = [pc EXCEPT ![p] = "block"]
-           /\ UNCHANGED <<params, st, outq, fin, q, sAlive, rAlive, received, dropped>>
+           /\ UNCHANGED <<params, st, outq, fin, q, sAlive, rAlive, received, dropped, seen, pub, obs>>
 BlockingSend(p) == pc[p] = "block" /\ rAlive[p] /\ HasSpace(p) /\ Transfer(p)
 
 StyleOf(p) == IF p = 0 THEN "return" ELSE Styles[p]
 SendErr(p) == /\ pc[p] \in {"send", "block"} /\ ~rAlive[p]                    \* Disconnected(m) / Err(m): m is gone with the consumer
               /\ outq' = [outq EXCEPT ![p] = <<>>]
-              /\ \/ Terminate(p)                                             \* the stage function returns
+              /\ \/ Terminate(p) /\ pub' = PubOnReturn(p)                      \* the stage function returns
                  \/ /\ StyleOf(p) = "continue" /\ ~fin[p]                    \* inner loop ended, keep consuming
-                    /\ pc' = [pc EXCEPT ![p] = "recv"] /\ UNCHANGED <<sAlive, rAlive>>
-              /\ UNCHANGED <<params, st, fin, q, received, dropped>>
+                    /\ pc' = [pc EXCEPT ![p] = "recv"] /\ UNCHANGED <<sAlive, rAlive, pub>>
+              /\ UNCHANGED <<params, st, fin, q, received, dropped, seen, obs>>
 
 RecvMsg(p) == /\ pc[p] = "recv" /\ q[p - 1] # <<>>
               /\ LET r == StageStep(Kinds[p], st[p], Head(q[p - 1])) IN
                  /\ st' = [st EXCEPT ![p] = r.st] /\ outq' = [outq EXCEPT ![p] = r.outs]
                  /\ pc' = [pc EXCEPT ![p] = IF r.outs = <<>> THEN "recv" ELSE "send"]
               /\ q' = [q EXCEPT ![p - 1] = Tail(@)]
-              /\ UNCHANGED <<params, fin, sAlive, rAlive, received, dropped>>
+              /\ IF IsLc(p)
+                 THEN /\ seen' = seen + 1          \* a confirmation (burst release) publishes the confirmed entry first
+                      /\ pub' = (IF Head(q[p - 1]) % 3 = 0 THEN Pub(pub, [pub.val EXCEPT !.a = seen + 1], TRUE) ELSE pub)
+                 ELSE UNCHANGED <<seen, pub>>
+              /\ UNCHANGED <<params, fin, sAlive, rAlive, received, dropped, obs>>
 RecvEnd(p) == /\ pc[p] = "recv" /\ q[p - 1] = <<>> /\ ~sAlive[p - 1]
               /\ LET f == StageFlush(Kinds[p], st[p]) IN
                  /\ outq' = [outq EXCEPT ![p] = f] /\ fin' = [fin EXCEPT ![p] = TRUE]
                  /\ st' = [st EXCEPT ![p] = InitSt(Kinds[p])]
                  /\ IF f = <<>> THEN Terminate(p) ELSE pc' = [pc EXCEPT ![p] = "send"] /\ UNCHANGED <<sAlive, rAlive>>
-              /\ UNCHANGED <<params, q, received, dropped>>
+                 /\ pub' = (IF ~IsLc(p) THEN pub ELSE IF f = <<>> THEN FinalPub(EndPub(pub)) ELSE EndPub(pub))
+              /\ UNCHANGED <<params, q, received, dropped, seen, obs>>
 
 CRecv == /\ pc[C] = "recv" /\ q[NS] # <<>> /\ (dropAt = -1 \/ Len(received) < dropAt)
          /\ received' = Append(received, Head(q[NS])) /\ q' = [q EXCEPT ![NS] = Tail(@)]
-         /\ UNCHANGED <<params, pc, st, outq, fin, sAlive, rAlive, dropped>>
+         /\ UNCHANGED <<params, pc, st, outq, fin, sAlive, rAlive, dropped, seen, pub, obs>>
 CEnd == /\ pc[C] = "recv" /\ q[NS] = <<>> /\ ~sAlive[NS]
         /\ pc' = [pc EXCEPT ![C] = "done"] /\ rAlive' = [rAlive EXCEPT ![NS] = FALSE]
-        /\ UNCHANGED <<params, st, outq, fin, q, sAlive, received, dropped>>
+        /\ UNCHANGED <<params, st, outq, fin, q, sAlive, received, dropped, seen, pub, obs>>
 CDrop == /\ pc[C] = "recv" /\ dropAt >= 0 /\ Len(received) = dropAt
          /\ pc' = [pc EXCEPT ![C] = "done"] /\ rAlive' = [rAlive EXCEPT ![NS] = FALSE] /\ dropped' = TRUE
-         /\ UNCHANGED <<params, st, outq, fin, q, sAlive, received>>
+         /\ UNCHANGED <<params, st, outq, fin, q, sAlive, received, seen, pub, obs>>
+
+\* the table observer (remote.rs rule): take the table iff it carries an index larger than the largest one seen
+Poll == /\ Observe /\ pub.idx > obs.last
+        /\ obs' = [last |-> pub.idx, val |-> pub.val]
+        /\ UNCHANGED <<params, pc, st, outq, fin, q, sAlive, rAlive, received, dropped, seen, pub>>
 
 SenderNext(p) == TrySendOk(p) \/ TrySendFull(p) \/ Wake(p) \/ BlockingSend(p) \/ SendErr(p)
 PNext(p) == IF p = C THEN CRecv \/ CEnd \/ CDrop
             ELSE IF p = 0 THEN SenderNext(0)
             ELSE SenderNext(p) \/ RecvMsg(p) \/ RecvEnd(p)
-Next == \E p \in Procs : PNext(p)
+Next == (\E p \in Procs : PNext(p)) \/ Poll
 Spec == Init /\ [][Next]_vars /\ \A p \in Procs : WF_vars(PNext(p))
 SpecEmit == Init /\ [][FALSE]_vars          \* scenario emission only needs the initial states
 
@@ -163,6 +199,9 @@ CompleteIfNoDrop == (AllDone /\ ~dropped) => received = RefOut    \* a full chan
 DropExact == dropped => Len(received) = dropAt
 ChanBound == \A i \in Chans : Len(q[i]) <= (IF caps[i] = 0 THEN 1 ELSE caps[i])
 DoneIsFinal == \A p \in 0..NS : pc[p] = "done" => ~sAlive[p]
+PublishIdxMonotone == pub.ok        \* a publish that changes the visible table has an index larger than every earlier one
+FoldUpToDate == obs.last >= pub.idx => obs.val = pub.val     \* following by index never ends with a stale table
+FinalTableComplete == (\E p \in 1..NS : IsLc(p) /\ pc[p] = "done") => pub.val = [a |-> seen, b |-> TRUE]
 Termination == <>AllDone                                          \* with and without a consumer drop
 DropTerminates == dropped ~> AllDone
 
